@@ -82,7 +82,7 @@ CLAIMED.update({
         text="Proof (Verus): node_to_bytes_limit returns exactly ser(tree) when |ser(tree)| <= L and Err(OutOfMemory) otherwise, through "
              "contracts on From<io::Error>, LimitedWriter::write (repo code, proved a budgeted sink), the prefix/atom writers and "
              "node_to_stream (stack invariant). node_to_bytes_backrefs_limit: the limit wrapper is proved against an ASSUMED contract of "
-             "node_to_stream_backrefs (search structures out of reach). The original defect is repaired by a fix: commit.",
+             "node_to_stream_backrefs (search structures out of reach); a BOUNDED stand-in runs on every check for that function (60 random trees x every limit around every byte position: result is the unlimited serialization when it fits and OutOfMemory otherwise; labelled bounded, never counted as proved). The original defect is repaired by a fix: commit.",
         note=TB_COMMON + "io::Write as budgeted sink (R10); write_all assumed to follow write for such sinks; ? converts errors with From::from (axiom).",
         tech="contract-based deductive verification (Verus) with a trait-level writer abstraction",
         ref="4/C29"),
